@@ -7,7 +7,7 @@ import math
 from .. import terms as tm
 from .. import oracles
 from ..model import AnalysisError
-from .common import ob, need, call_name, count_form, positive_facts, positive_term, strip_numeric, resolve_ite_free, is_lit, lit, facts, role_of
+from .common import ob, need, call_name, count_form, linear_form, positive_facts, positive_term, strip_numeric, resolve_ite_free, is_lit, lit, facts, role_of
 from .. import symeval
 
 PROP = "C01"
@@ -16,7 +16,10 @@ EXPLANATION = (
     "one of the two collections handed to that very matcher call, so it cannot exceed 1; (COUNTGUARD/GUARDTABLE) every division by a count "
     "of an input collection, and every value-denominator whose zero case the code special-cases today, is still guarded on every path to it "
     "(no 0/0 from empty or degenerate sides); (CONSTRET) every literal a scoring function can return, including early-return tuples, lies "
-    "in the range of its entry kind and binary scores are syntactically Boolean.  Numeric ranges of the formulas themselves are not decided."
+    "in the range of its entry kind and binary scores are syntactically Boolean; (ACCBOUND) a score accumulated in a loop and then normalised adds at most 1 "
+    "per element of its driving collection and is divided by something structurally >= the size of that collection; (VALUEDEN) every other division "
+    "by a data-dependent value is dominated by a test proving it non-zero, is a guarded combination of counts, depends on configuration only, or is in "
+    "a reviewed table with the reason it cannot vanish on valid input.  Numeric ranges of the closed-form formulas themselves are not decided."
 )
 RULE_TEXT = "one obligation per division site / per literal return component; distinct = distinct (rule, function, site)"
 
@@ -421,6 +424,463 @@ def rule_fform(ctx):
     yield ob(R, f, "util.f_measure:zero-case", len(zero) == 1 and lit(zero[0].term) == 0, "P = R = 0 returns 0")
 
 
+# -------------------------------------------------------------------- ACCBOUND
+# Scores formed as (value accumulated in a loop) / normaliser.  The accumulator grows by at most 1 per
+# iteration of its *driving* loop (the enclosing loops it is not break-limited in), so it is bounded by
+# the size of that loop's collection; the ratio stays <= 1 only if the normaliser is structurally >=
+# that size: a count of the very collection, a max() containing it, a non-negative combination with
+# coefficient >= 1 on it, or a counter advanced in lockstep with the accumulator.
+
+ACC_FUNCS = {
+    "beat.cemgil": 1,
+    "pattern.standard_FPR": 2,
+    "hierarchy._gauc": 1,
+}
+
+# increments that are in [0, 1] for a reason outside this rule: function -> (shape predicate on the ast value, reason)
+ACC_UNIT_REVIEWED = {
+    "hierarchy._gauc": "1 - inversions/normalizer: _compare_frame_rankings returns (inversions, number of compared pairs); C17.RANKPAIRS relates the two",
+}
+
+
+def _is_pos_ast(n):
+    """literal > 0, even power, or product of such: a syntactically positive quantity."""
+    import ast
+
+    if isinstance(n, ast.Constant) and isinstance(n.value, (int, float)) and not isinstance(n.value, bool):
+        return n.value > 0
+    if isinstance(n, ast.BinOp) and isinstance(n.op, ast.Pow) and isinstance(n.right, ast.Constant) and isinstance(n.right.value, int) and n.right.value % 2 == 0:
+        return True
+    if isinstance(n, ast.BinOp) and isinstance(n.op, ast.Mult):
+        return _is_pos_ast(n.left) and _is_pos_ast(n.right)
+    if isinstance(n, ast.Call) and isinstance(n.func, ast.Name) and n.func.id == "float" and len(n.args) == 1:
+        return _is_pos_ast(n.args[0])
+    return False
+
+
+def _is_nonneg_ast(n):
+    import ast
+
+    if _is_pos_ast(n):
+        return True
+    if isinstance(n, ast.Call):
+        nm = ast.unparse(n.func)
+        if nm in ("abs", "np.abs", "np.square", "np.fabs"):
+            return True
+    if isinstance(n, ast.BinOp) and isinstance(n.op, ast.Mult) and ast.dump(n.left) == ast.dump(n.right):
+        return True
+    return False
+
+
+def _is_nonpos_ast(n):
+    """-(nonneg), -(nonneg)/pos, (-(nonneg))/pos, -(nonneg/pos)."""
+    import ast
+
+    if isinstance(n, ast.UnaryOp) and isinstance(n.op, ast.USub):
+        x = n.operand
+        if _is_nonneg_ast(x):
+            return True
+        if isinstance(x, ast.BinOp) and isinstance(x.op, (ast.Div, ast.Mult)) and _is_nonneg_ast(x.left) and _is_pos_ast(x.right):
+            return True
+        return False
+    if isinstance(n, ast.BinOp) and isinstance(n.op, (ast.Div, ast.Mult)):
+        return (_is_nonpos_ast(n.left) and _is_pos_ast(n.right)) or (_is_pos_ast(n.left) and _is_nonpos_ast(n.right) and isinstance(n.op, ast.Mult))
+    return False
+
+
+def _unit_increment(v, qual):
+    """(ok, exact_one, why) for the ast value added to the accumulator."""
+    import ast
+
+    if isinstance(v, ast.Constant) and v.value in (1, 1.0) and not isinstance(v.value, bool):
+        return True, True, "1"
+    if isinstance(v, ast.Call) and ast.unparse(v.func) in ("np.exp", "math.exp") and len(v.args) == 1 and _is_nonpos_ast(v.args[0]):
+        return True, False, "exp(non-positive) in (0, 1]"
+    if qual in ACC_UNIT_REVIEWED and isinstance(v, ast.BinOp) and isinstance(v.op, ast.Sub) and isinstance(v.left, ast.Constant) and v.left.value in (1, 1.0) and isinstance(v.right, ast.BinOp) and isinstance(v.right.op, ast.Div):
+        return True, False, "reviewed: " + ACC_UNIT_REVIEWED[qual]
+    return False, False, "increment %s is not recognisably within [0, 1]" % ast.unparse(v)[:60]
+
+
+def _increments(loop_node, name):
+    """[(stmt, value, chain of enclosing loops from loop_node inwards, stmt list containing it, index)] and other stores."""
+    import ast
+
+    incs = []
+    others = []
+
+    def walk(stmts, chain, lists=()):
+        lists = lists + (id(stmts),)
+        for i, st in enumerate(stmts):
+            if isinstance(st, ast.AugAssign) and isinstance(st.target, ast.Name) and st.target.id == name:
+                if isinstance(st.op, ast.Add):
+                    incs.append((st, st.value, list(chain), stmts, i, lists))
+                else:
+                    others.append(st)
+            elif isinstance(st, ast.Assign) and any(isinstance(t, ast.Name) and t.id == name for t in st.targets):
+                v = st.value
+                if isinstance(v, ast.BinOp) and isinstance(v.op, ast.Add) and isinstance(v.left, ast.Name) and v.left.id == name:
+                    incs.append((st, v.right, list(chain), stmts, i, lists))
+                elif isinstance(v, ast.BinOp) and isinstance(v.op, ast.Add) and isinstance(v.right, ast.Name) and v.right.id == name:
+                    incs.append((st, v.left, list(chain), stmts, i, lists))
+                else:
+                    others.append(st)
+            elif isinstance(st, (ast.For, ast.While)):
+                walk(st.body, chain + [st], lists)
+                walk(st.orelse, chain, lists)
+            elif isinstance(st, ast.If):
+                walk(st.body, chain, lists)
+                walk(st.orelse, chain, lists)
+            elif isinstance(st, ast.With):
+                walk(st.body, chain, lists)
+            elif isinstance(st, ast.Try):
+                walk(st.body, chain, lists)
+                for h in st.handlers:
+                    walk(h.body, chain, lists)
+                walk(st.orelse, chain, lists)
+                walk(st.finalbody, chain, lists)
+
+    walk(loop_node.body, [loop_node])
+    return incs, others
+
+
+def _outer_loop_term(t):
+    """the outermost loop term of an accumulator (init may itself be threaded through loopvars)."""
+    t = strip_numeric(t)
+    return t if t.op == "loop" else None
+
+
+def _acc_init(t):
+    while t.op in ("loop", "loopvar"):
+        t = t.a[2]
+    return t
+
+
+def _fingerprint(t):
+    """rename-stable descriptor of a term: roles/params it reads and the callees it goes through."""
+    names = set()
+    for x in tm.walk(t):
+        if x.op == "call":
+            n = call_name(x)
+            if n:
+                names.add(n.split(".")[-1])
+        elif x.op == "loop":
+            names.add("loop")
+    ps = sorted(tm.params_of(t))
+    return "%s|%s" % (",".join(ps), ",".join(sorted(names)))
+
+
+def rule_accbound(ctx):
+    import ast
+
+    R = "C01.ACCBOUND"
+    for qual, minimum in sorted(ACC_FUNCS.items()):
+        f = ctx.program.func(qual, R)
+        s = ctx.S.get(qual)
+        hits = []
+        for d in s.by_kind("div"):
+            if d.d.get("op", "/") != "/":
+                continue
+            lt = _outer_loop_term(d.num)
+            if lt is not None and not any(h[0].node is d.node for h in hits):
+                hits.append((d, lt))
+        if len(hits) < minimum:
+            raise AnalysisError(R, "%s: expected >= %d divisions of a loop accumulator, found %d" % (qual, minimum, len(hits)))
+        seen_keys = {}
+        for d, lt in hits:
+            lid, name = lt.a[0], lt.a[1]
+            if lid not in s.loops:
+                raise AnalysisError(R, "%s: loop %s of accumulator %s not recorded" % (qual, lid, name))
+            loop_node, _it = s.loops[lid]
+            init = _acc_init(lt)
+            if not tm.is_const(init, 0):
+                raise AnalysisError(R, "%s: accumulator %s does not start at 0 (%s)" % (qual, name, tm.show(init, 2)))
+            incs, others = _increments(loop_node, name)
+            if others or not incs:
+                raise AnalysisError(R, "%s: accumulator %s is also written other than by `+=` inside its loop" % (qual, name))
+            # unit-bounded increments
+            unit_ok = True
+            unit_why = []
+            for st, v, chain, stmts, i, _lists in incs:
+                ok, exact, why = _unit_increment(v, qual)
+                unit_why.append(why)
+                if not ok:
+                    unit_ok = False
+            if not unit_ok:
+                raise AnalysisError(R, "%s: %s" % (qual, "; ".join(unit_why)))
+            # driving loops: enclosing loops in which the increment is not immediately followed by a break of that loop
+            driving = None
+            for st, v, chain, stmts, i, _lists in incs:
+                drv = list(chain)
+                if i + 1 < len(stmts) and isinstance(stmts[i + 1], ast.Break):
+                    drv = drv[:-1]  # at most once per run of the innermost loop
+                ids = [id(x) for x in drv]
+                if driving is None:
+                    driving = drv
+                elif [id(x) for x in driving] != ids:
+                    raise AnalysisError(R, "%s: increments of %s sit in different loop nests" % (qual, name))
+            if len(driving) != 1:
+                raise AnalysisError(R, "%s: accumulator %s is driven by %d nested loops; only single-loop bounds are decided" % (qual, name, len(driving)))
+            drv_node = driving[0]
+            drv_it = None
+            for l2, (n2, it2) in s.loops.items():
+                if n2 is drv_node:
+                    drv_it = it2
+            if drv_it is None:
+                raise AnalysisError(R, "%s: driving loop of %s not recorded" % (qual, name))
+            cons = "%s:acc[%s]/[%s]" % (qual, _fingerprint(drv_it), _fingerprint(strip_numeric(d.den)))
+            seen_keys[cons] = seen_keys.get(cons, 0) + 1
+            if seen_keys[cons] > 1:
+                cons = "%s#%d" % (cons, seen_keys[cons])
+            good, why = _den_covers(s, d, strip_numeric(d.den), drv_it, drv_node, incs, name)
+            if good is None:
+                raise AnalysisError(R, "%s: normaliser %s of accumulator %s is in no recognised form" % (qual, tm.show(d.den, 3), name))
+            yield ob(
+                R,
+                f,
+                cons,
+                good,
+                ("%s grows by at most 1 (%s) per element of %s; %s" % (name, unit_why[0], tm.show(drv_it, 2), why)),
+                node=d.node,
+            )
+
+
+def _same_coll(base, it):
+    if base is it:
+        return True
+    # len(x) where the loop runs over x, or over range(len(x)) / enumerate(x)
+    if it.op == "call" and call_name(it) in ("builtins.range",) and len(it.a[1]) == 1:
+        cf = count_form(it.a[1][0])
+        return cf is not None and cf[1] is base
+    if it.op == "call" and call_name(it) in ("builtins.enumerate", "builtins.list", "builtins.sorted", "builtins.reversed") and it.a[1]:
+        return _same_coll(base, it.a[1][0])
+    return False
+
+
+def _den_covers(s, d, den, drv_it, drv_node, incs, name):
+    """(True/False/None, why): is the normaliser structurally >= the size of the driving collection?"""
+    import ast
+
+    # lockstep counter
+    if den.op == "loop":
+        cname = den.a[1]
+        loop_node = s.loops[den.a[0]][0] if den.a[0] in s.loops else None
+        if loop_node is None or not tm.is_const(_acc_init(den), 0):
+            return None, ""
+        cincs, cothers = _increments(loop_node, cname)
+        if cothers or not cincs:
+            return None, ""
+        lock = True
+        for (st, v, chain, stmts, i, lists) in incs:
+            # a counter increment of exactly 1 in the same block or in a block enclosing it inside the same driving loop
+            sib = [c for c in cincs if id(c[3]) in lists and [id(x) for x in c[2]] == [id(x) for x in chain][: len(c[2])] and isinstance(c[1], ast.Constant) and c[1].value in (1, 1.0) and not isinstance(c[1].value, bool)]
+            if not sib:
+                lock = False
+        if lock:
+            return True, "the normaliser %s is advanced by exactly 1 in the same (or an enclosing) block as every increment" % cname
+        return False, "the normaliser %s is a counter that does not advance with every increment of %s: the mean of [0,1] terms can exceed 1" % (cname, name)
+    cf = count_form(den)
+    if cf is not None:
+        if _same_coll(cf[1], drv_it):
+            return True, "the normaliser counts that very collection"
+        return False, "but the normaliser counts %s, a different collection: the ratio exceeds 1 whenever several elements of the driving collection score against fewer elements there" % tm.show(cf[1], 2)
+    if den.op == "call" and call_name(den) in ("np.max", "builtins.max", "np.maximum"):
+        args = list(den.a[1])
+        if len(args) == 1 and args[0].op in ("list", "tuple"):
+            args = list(args[0].a)
+        cfs = [count_form(a) for a in args]
+        if cfs and all(c is not None for c in cfs):
+            if any(_same_coll(c[1], drv_it) for c in cfs):
+                return True, "the normaliser is a max() that includes the count of that collection"
+            return False, "but the normaliser is a max() of counts of other collections"
+        return None, ""
+    lf = linear_form(den)
+    if lf:
+        cov = 0.0
+        allcounts = True
+        nonneg = True
+        for k, (c, x) in lf.items():
+            cfx = count_form(x)
+            if cfx is None:
+                allcounts = False
+                continue
+            if c < 0:
+                nonneg = False
+            if _same_coll(cfx[1], drv_it):
+                cov += c
+        if allcounts and nonneg:
+            if cov >= 1.0 - 1e-12:
+                return True, "the normaliser is a non-negative combination of counts with weight %.3g >= 1 on that collection" % cov
+            return False, "but the normaliser %s puts weight %.3g < 1 on the size of that collection: the ratio exceeds 1 when the other side is smaller and several driving elements score ~1" % (tm.show(den, 3), cov)
+    return None, ""
+
+
+
+# -------------------------------------------------------------------- VALUEDEN
+# Census of every remaining `/` whose denominator is computed from the data (not a literal, not a
+# plain count - COUNTGUARD has those).  Such a division yields NaN/inf for the degenerate input that
+# zeroes the denominator unless (a) a test on the path proves it non-zero, (b) it is a non-negative
+# combination / max of counts one of which is proved non-empty, (c) it depends on configuration
+# parameters only, or (d) it is listed below with the reason it cannot vanish on valid input.
+
+def _mentions(*names):
+    def pred(den):
+        got = set()
+        for x in tm.walk(den):
+            if x.op == "call":
+                n = call_name(x)
+                if n:
+                    got.add(n)
+            elif x.op == "param":
+                got.add("p:" + x.a[0])
+        return all(n in got for n in names)
+
+    return pred
+
+
+VALUEDEN_REVIEWED = [
+    # (function, predicate on the denominator term, reason)
+    ("beat.goto", _mentions("p:reference_beats"), "half inter-beat interval of the reference; zero only between duplicated beats, and the quotient only feeds threshold comparisons (inf/NaN compare False), so the Boolean result stays 0/1"),
+    ("beat.continuity", _mentions("beat._get_reference_beat_variations"), "reference inter-beat interval; as for goto the quotient only feeds `<` comparisons against the continuity thresholds"),
+    ("beat._get_entropy", _mentions("np.histogram"), "number of beat errors that fell into a bin; information_gain exits before calling when either side has < 2 beats and np.mod folds every finite error into the binned range"),
+    ("beat._get_entropy", _mentions("p:reference_beats"), "half reference inter-beat interval used to normalise a beat error before it is histogrammed; non-finite errors fall outside every bin"),
+    ("chord.directional_hamming_distance", _mentions("p:reference_intervals"), "span of the reference intervals; validate_intervals enforces positive durations, so the span of a non-empty annotation is > 0"),
+    ("pattern._compute_score_matrix", _mentions("builtins.len"), "max of two occurrence lengths; occurrences of a validated pattern are non-empty (documented domain of pattern.validate)"),
+    ("segment._adjusted_rand_index", _mentions("scipy.special.comb"), "number of frame pairs and (mean - expected) pair counts; the degenerate partitions (one cluster each, all singletons, < 2 frames) return 1.0 before this line"),
+    ("segment._mutual_info_score", _mentions("segment._contingency_matrix"), "total of the contingency table = number of frames; mutual_information exits on empty annotations first"),
+    ("segment._entropy", _mentions("np.bincount"), "total of the label histogram = number of frames (> 0 for a non-empty label sequence)"),
+    ("segment._adjusted_mutual_info_score", _mentions("segment._entropy"), "max(H_ref, H_est) - E[MI]; the one-cluster / all-singleton cases that make it 0 return 1.0 before this line (sklearn's special cases)"),
+    ("transcription.average_overlap_ratio", _mentions("builtins.max", "builtins.min"), "length of the union of two matched notes; validate_intervals enforces positive durations, so the union is > 0"),
+    ("hierarchy._lca", _mentions("p:frame_size"), "frame_size is validated > 0 by lmeasure before the helper is reached (C14.FACETS lmeasure:frame_size)"),
+    ("hierarchy._meet", _mentions("p:frame_size"), "frame_size is validated > 0 by tmeasure before the helper is reached (C14.FACETS tmeasure:frame_size)"),
+    ("melody.constant_hop_timebase", _mentions("p:hop"), "hop is the caller's step size, a configuration value documented positive"),
+]
+
+
+def _config_only(den, f):
+    ps = tm.params_of(den)
+    if not ps:
+        return False
+    for x in tm.walk(den):
+        if x.op in ("iter", "loop", "loopvar", "glob", "idx", "nondet"):
+            return False
+    for p in ps:
+        if p not in f.defaults:
+            return False
+        okv, v = f.default_value(p)
+        if not okv or not isinstance(v, (int, float)) or isinstance(v, bool):
+            return False
+    return True
+
+
+_SCALAR_REDUCTIONS = ("np.min", "np.max", "builtins.min", "builtins.max", "np.median", "np.mean", "np.sum")
+
+
+def _scalar_valued(t):
+    if t.op == "const":
+        return True
+    if t.op == "call" and call_name(t) in _SCALAR_REDUCTIONS and not any(k == "axis" for k, _ in t.a[2]):
+        return True
+    return False
+
+
+def _shape_source(t):
+    """the collection whose element count ``t`` has: sees through copies and element-wise arithmetic with scalars."""
+    for _ in range(8):
+        if t.op == "call" and call_name(t) in ("np.array", "np.asarray", "np.copy", "np.abs", "np.sort") and len(t.a[1]) >= 1:
+            t = t.a[1][0]
+            continue
+        if t.op == "bin" and t.a[0] in ("+", "-", "*", "/"):
+            if _scalar_valued(t.a[2]):
+                t = t.a[1]
+                continue
+            if _scalar_valued(t.a[1]):
+                t = t.a[2]
+                continue
+        break
+    return t
+
+
+def _counts_with_guard(den, pc):
+    """non-negative combination or max of counts, one of them over a collection proved non-empty."""
+    guarded = [b for k, b in ((c[0], c[1]) for c in [count_form(x) for x in positive_facts(pc)] if c is not None)]
+
+    def is_guarded(base):
+        if any(base is g for g in guarded):
+            return True
+        # np.array(x - offset) etc.: same number of elements as a guarded collection
+        src = _shape_source(base)
+        return any(src is g for g in guarded)
+
+    items = None
+    if den.op == "call" and call_name(den) in ("np.max", "builtins.max", "np.maximum"):
+        items = list(den.a[1])
+        if len(items) == 1 and items[0].op in ("list", "tuple"):
+            items = list(items[0].a)
+        cfs = [count_form(x) for x in items]
+        if cfs and all(c is not None for c in cfs):
+            return any(is_guarded(c[1]) for c in cfs)
+        return False
+    lf = linear_form(den)
+    if not lf:
+        return False
+    hit = False
+    for k, (c, x) in lf.items():
+        cf = count_form(x)
+        if cf is None or c < 0:
+            return False
+        if is_guarded(cf[1]):
+            hit = True
+    return hit
+
+
+def rule_valueden(ctx):
+    R = "C01.VALUEDEN"
+    matched = set()
+    for f in ctx.program.all_funcs():
+        if f.module.name in SCOPE_SKIP or f.module.name == "display":
+            continue
+        s = ctx.S.get(f.qual)
+        seen_nodes = set()
+        seen_keys = {}
+        for d in s.by_kind("div"):
+            if d.d.get("op", "/") != "/":
+                continue
+            den = strip_numeric(d.den)
+            if is_lit(den) or count_form(d.den) is not None:
+                continue
+            pos = (d.node.lineno, d.node.col_offset, den.id)
+            if pos in seen_nodes:
+                continue
+            seen_nodes.add(pos)
+            cons = "%s:den[%s]" % (f.qual, _fingerprint(den))
+            seen_keys[cons] = seen_keys.get(cons, 0) + 1
+            if seen_keys[cons] > 1:
+                cons = "%s#%d" % (cons, seen_keys[cons])
+            if positive_term(d.den, d.pc) or (f.qual == "util.f_measure" and _fmeasure_guard(d)):
+                yield ob(R, f, cons, True, "a test on every path to the division proves %s non-zero" % tm.show(den, 3), node=d.node)
+                continue
+            if _config_only(den, f):
+                yield ob(R, f, cons, True, "%s depends on configuration parameters only (%s)" % (tm.show(den, 3), ", ".join(sorted(tm.params_of(den)))), node=d.node)
+                continue
+            if _counts_with_guard(den, d.pc):
+                yield ob(R, f, cons, True, "%s is a non-negative combination / max of counts, one over a collection proved non-empty on this path" % tm.show(den, 3), node=d.node)
+                continue
+            why = None
+            for i, (q, pred, reason) in enumerate(VALUEDEN_REVIEWED):
+                if q == f.qual and pred(den):
+                    why = reason
+                    matched.add(i)
+                    break
+            if why is not None:
+                yield ob(R, f, cons, True, "reviewed: %s" % why, node=d.node)
+            else:
+                yield ob(R, f, cons, False, "division by the data-dependent value %s: no test on the path proves it non-zero and it is in no reviewed class, so the degenerate input that zeroes it yields NaN/inf instead of a finite score" % tm.show(den, 4), node=d.node)
+    stale = [VALUEDEN_REVIEWED[i][0] for i in range(len(VALUEDEN_REVIEWED)) if i not in matched]
+    if stale:
+        raise AnalysisError(R, "reviewed denominators no longer found in: %s" % ", ".join(sorted(set(stale))))
+
+
+
 def rule_matchsrc(ctx):
     """Shared with C05: the hit count in every ratio is the size of a one-to-one matching."""
     from . import c05
@@ -439,4 +899,6 @@ RULES = [
     ("C01.COUNTGUARD", 23, rule_countguard),
     ("C01.GUARDTABLE", 25, rule_guardtable),
     ("C01.CONSTRET", 83, rule_constret),
+    ("C01.ACCBOUND", 4, rule_accbound),
+    ("C01.VALUEDEN", 40, rule_valueden),
 ]
